@@ -318,7 +318,9 @@ PROPS = {
         "engines": [_eng("acct", 25000, 800000), _eng("", 10000, 300000)],
         "nontrivial": _eng_nontrivial, "rule": _ENG_RULE + "Profile `acct`: more setvar (+N, -N, assign, delete, macro keys/values), chains, multiMatch.",
         "modelled": _ENG_MODELLED, "assumptions": _ENG_ASSUME,
-        "open_statements": ["C09_sum is proved for literal non-negative operands (`+n`) below 2^63 via the Itoa/Atoi round trip (Proofs/Digits.lean); decrements, negative values and macro operands are covered by the per-match fold (C09_once_per_match) and compared by the correspondence"],
+        "open_statements": ["C09_signed_sum covers literal operands of either sign through negative totals inside the int64 range (Itoa/Atoi round trip on "
+                            "the whole range, Proofs/Digits.lean); macro operands are covered by the per-match fold (C09_once_per_match) and compared by "
+                            "the correspondence; beyond the range the code wraps around (modelled as wrap64, compared by the correspondence)"],
     },
     "C12": {
         "engines": [_eng("cache", 25000, 800000), {"name": "engrep", "quick": 1500, "thorough": 40000, "shards": 8}],
